@@ -586,7 +586,7 @@ func TestC04(t *testing.T) {
 		}()
 	}
 	wg.Wait()
-	code := run.Finish("scripted raw peer against one real stack in virtual time, quiescence after every step. Per scenario PRNG-chosen: IPv4/IPv6, active/passive open, MTU 108..65535, peer MSS option absent/1..65535, peer window scale absent/0..15, timestamps, SACK, SYN window 0..65535, receive buffer, both ISS incl. wrap-adjacent; then 10-50 steps of: application writes 1 byte..1 MiB, cumulative ACKs with windows {0,1,MSS-1,MSS,...,65535,random}, re-sent stale ACKs, pauses up to 3 s, in-window peer data, peer data wholly beyond the advertised edge when the window is shut, application stop/resume reading, and a final drive-the-window-shut-and-drain phase. Online monitor over every emitted segment: data never beyond the largest right edge the peer has sent so far (unwrapped 64-bit offsets), payload <= peer MSS, packet <= MTU, content = written bytes; advertised right edge never moves left; in-window in-order data is acknowledged and readable; beyond-window bytes (marker 0xEE) never readable; closed window reopens after the application drains it. distinct = configuration classes",
+	code := run.Finish("scripted raw peer against one real stack in virtual time, quiescence after every step. Per scenario PRNG-chosen: IPv4/IPv6, active/passive open, MTU 108..65535, peer MSS option absent/1..65535, peer window scale absent/0..15, timestamps, SACK, SYN window 0..65535, receive buffer, both ISS incl. wrap-adjacent; then 10-50 steps of: application writes 1 byte..1 MiB, cumulative ACKs with windows {0,1,MSS-1,MSS,...,65535,random}, re-sent stale ACKs, pauses up to 3 s, in-window peer data, peer data wholly beyond the advertised edge when the window is shut, application stop/resume reading, and a final drive-the-window-shut-and-drain phase. Online monitor over every emitted segment: data never beyond the largest right edge the peer has sent so far (unwrapped 64-bit offsets), payload <= peer MSS, packet <= MTU, content = written bytes; advertised right edge never moves left; in-window in-order data is acknowledged and readable; beyond-window bytes (marker 0xEE) never readable; closed window reopens after the application drains it. distinct = configuration classes Later additions: Bytes transmitted for the first time must stay inside the edge of the peer's latest segment (a peer may take window back); a window that stays closed although everything was read is a violation; bursts of in-order segments; ISS up to 700 000 below the wraps. One connection in six ends its SYN options with end-of-option-list followed by stale option-like bytes.",
 		[]string{"'sent so far' = 'processed so far' because the bubble is quiesced after every injected segment", "expected values computed from the peer's own script; decoding by the independent codec h/rfc"})
 	os.Exit(code)
 }
